@@ -190,6 +190,16 @@ Proof. exact C20.Proofs.device_count_value. Qed.
 Theorem no_trap_svg_doc_slice : forall off len n, svg_doc_slice off len n <> None.
 Proof. exact C20.Proofs.no_trap_svg_doc_slice. Qed.
 
+(* ---- auto-hinter link_segments_default: the score term.  Every optional standard width, Some(0) included,
+   is guarded (unwrap_or_default, then != 0) before `(dist << 10) / max_width` ---- *)
+Theorem no_trap_link_score : forall mw dist len len_score,
+  (match mw with Some w => i32 w | None => True end) ->
+  0 <= dist <= 65535 -> 1 <= len <= 65535 -> 0 <= len_score <= 2000000000 ->
+  link_score mw dist len len_score <> None.
+Proof. exact C20.Proofs.no_trap_link_score. Qed.
+Theorem no_trap_derived_constant : forall upem v, u16 upem -> 0 <= v <= 32767 -> derived_constant upem v <> None.
+Proof. exact C20.Proofs.no_trap_derived_constant. Qed.
+
 Print Assumptions no_trap_floor.
 Print Assumptions no_trap_round.
 Print Assumptions no_trap_ceil.
@@ -257,3 +267,5 @@ Print Assumptions no_trap_cov2_get.
 Print Assumptions no_trap_device_count.
 Print Assumptions device_count_value.
 Print Assumptions no_trap_svg_doc_slice.
+Print Assumptions no_trap_link_score.
+Print Assumptions no_trap_derived_constant.
